@@ -107,7 +107,8 @@ class Outcome:
 
 class Interp:
     def __init__(self, analysis, module, env, effect_receivers=(), self_class=None,
-                 isinstance_fn=None, call_models=None, raise_classifier=None, inline_pkg=False, depth=0):
+                 isinstance_fn=None, call_models=None, raise_classifier=None, inline_pkg=False, depth=0,
+                 record_unknown=False):
         """
         env                initial locals
         effect_receivers   names whose method calls are recorded as events ('stack', 'output')
@@ -122,6 +123,7 @@ class Interp:
         self.isinstance_fn = isinstance_fn
         self.call_models = call_models or {}
         self.inline_pkg = inline_pkg
+        self.record_unknown = record_unknown
         self.depth = depth
         self.out = Outcome()
 
@@ -376,7 +378,9 @@ class Interp:
             root = fn
             while isinstance(root, ast.Attribute):
                 root = root.value
-            if isinstance(root, ast.Name) and root.id in self.effects:
+            unknown = isinstance(root, ast.Name) and self.record_unknown and root.id not in self.env \
+                and self.a.res.resolve(root, self.m) is None
+            if isinstance(root, ast.Name) and (root.id in self.effects or unknown):
                 label = ast.unparse(fn)
                 args = tuple(self._safe_ev(a) for a in n.args)
                 self.out.events.append((label, args))
